@@ -236,7 +236,20 @@ def run_case(case):
             labels.append("restart-shrinks")
         # ---------- reference operation log with wrapped files (same bytes expected)
         p = prepare(tmp, case)
-        ref = run_history(case, p, wrap=True)
+        natoms2, viol2 = [], []
+
+        def on_round2(mc, atoms, shared):
+            natoms2.append(len(atoms))
+            if not viol2:
+                v = check_round_files(p, case, len(natoms2) - 1, natoms2, mc.step_count)
+                if v:
+                    viol2.append(v)
+
+        ref = run_history(case, p, on_round=on_round2, wrap=True)
+        evals += len(natoms2)
+        if viol2:
+            return {"labels": labels, "nontrivial": True, "weight": evals, "keys": ["nocrash-viol"],
+                    "violation": {"kind": "nocrash-fileobject:" + viol2[0][0], "detail": f"steps={case['steps']} mode={case['mode']} pre={case['pre']} (files passed as open file objects): {viol2[0][1]}"}}
         ops = ref["ops"]
         total = len(ops)
         for t, path in p.items():
